@@ -2,19 +2,33 @@
 C13 lock-level labelled transition system for the mutex wrappers of /repo/cardinality/lock.go. Core Lean only.
 
 Threads run lists of calls on wrappers; one (non-reentrant) mutex per wrapper, identified by a `Nat`.
-A method body, as extracted by tools/extract/c13 (`Generated/C13_locks.lean`), is
-`s.lock.Lock(); defer s.lock.Unlock(); s.provider.M(args)`.  Its atomic steps are
+Two protocols for a binary operation whose operand is itself a wrapper (`Call.snapshot`):
 
-  start      --acquire recv-->            held k     (k = callback rounds the delegate makes into a wrapper operand)
-  held (k+1) --acquire operand-->         inOp k     (the fallback calls operand.Each / operand.Contains, which
-  inOp k     --release operand-->         held k      takes the OPERAND's mutex while the receiver's is held)
-  held 0     --read receiver data-->      readDone   (the delegate is NOT atomic: it reads the bitmap …
-  readDone   --write receiver data-->     written     … and writes it back later)
-  written    --release recv; next call--> start
+* `snapshot = true` — lock.go with hooks/C13-fix2.patch (the live protocol):
+  `other = snapshotOperand(other); s.lock.Lock(); defer s.lock.Unlock(); s.provider.M(other)`
 
-`locked = false` describes a method whose body does not take the lock (what a dropped `s.lock.Lock()` would
-be); the acquire/release steps then do nothing.  `log` is ghost state: the calls in the order of their write
-steps, with the operand snapshot they used and the result they returned.
+    start    --acquire OPERAND, read its data-->  snapHeld   (snapshotOperand: Lock(); defer Unlock(); Clone())
+    snapHeld --release operand-->                 snapped
+    snapped  --acquire recv-->                    held 0     (the delegate works on the private copy)
+    held 0   --read receiver data-->              readDone   (the delegate is NOT atomic: it reads the bitmap …
+    readDone --write receiver data-->             written     … and writes it back later)
+    written  --release recv; next call-->         start
+
+  A thread never waits for a lock while it holds one.
+
+* `snapshot = false` — lock.go before the patch: `s.lock.Lock(); defer s.lock.Unlock(); s.provider.M(other)`, where
+  the delegate's fallback calls `other.Each` / `other.Contains`, which takes the OPERAND's mutex while the
+  receiver's is held:
+
+    start      --acquire recv-->     held k     (k = callback rounds into the operand)
+    held (k+1) --acquire operand-->  inOp k
+    inOp k     --release operand-->  held k
+    held 0 … as above
+
+A call whose operand is not a wrapper (`operand = none`) is `start --acquire recv--> held 0 …` in both.
+`locked = false` / `opLocked = false` describe a body / a snapshot that does not take the lock (what a dropped
+`Lock()` would be); the acquire/release steps then do nothing.  `log` is ghost state: the calls in the order of their
+write steps, with the operand snapshot they used and the result they returned.
 -/
 namespace Dawgs.C13.Lts
 
@@ -23,22 +37,30 @@ structure Call (D R : Type) where
   recv : Nat
   /-- mutex of the operand when the operand is itself a wrapper -/
   operand : Option Nat
-  /-- callback rounds into the operand (`Each`: 1; `Contains`: one per receiver element) -/
+  /-- old protocol: callback rounds into the operand (`Each`: 1; `Contains`: one per receiver element) -/
   cbs : Nat
   /-- the receiver method holds `s.lock` around its body (T-tie table) -/
   locked : Bool
-  /-- the operand's `Each`/`Contains` holds the operand's lock (T-tie table) -/
+  /-- reading the operand (`snapshotOperand`, or the operand's `Each`/`Contains`) holds the operand's lock -/
   opLocked : Bool
+  /-- the method snapshots a wrapper operand before it takes its own lock (T-tie table) -/
+  snapshot : Bool
   /-- delegate: receiver data → operand snapshot → (new receiver data, result) -/
   f : D → D → D × R
 
+/-- callback rounds made while the receiver's lock is held (none in the snapshot protocol) -/
 def Call.rounds (c : Call D R) : Nat :=
   match c.operand with
-  | some _ => c.cbs
+  | some _ => if c.snapshot then 0 else c.cbs
   | none => 0
+
+/-- the wrapper operand to snapshot first, if any -/
+def Call.snapTarget (c : Call D R) : Option Nat := if c.snapshot then c.operand else none
 
 inductive Pc where
   | start
+  | snapHeld
+  | snapped
   | held (k : Nat)
   | inOp (k : Nat)
   | readDone
@@ -68,6 +90,14 @@ structure State (D R : Type) where
 
 def upd (f : Nat → α) (k : Nat) (v : α) : Nat → α := fun i => if i = k then v else f i
 
+/-- `s.lock.Lock()` of the receiver, then the body starts -/
+def acquireRecv (s : State D R) (t : Nat) (T : Thread D R) (c : Call D R) : Option (State D R) :=
+  if c.locked then
+    match s.holder c.recv with
+    | none => some { s with holder := upd s.holder c.recv (some t), th := upd s.th t { T with pc := .held c.rounds } }
+    | some _ => none
+  else some { s with th := upd s.th t { T with pc := .held c.rounds } }
+
 /-- one atomic step of thread `t`; `none` = `t` is finished or blocked -/
 def step (s : State D R) (t : Nat) : Option (State D R) :=
   let T := s.th t
@@ -76,11 +106,21 @@ def step (s : State D R) (t : Nat) : Option (State D R) :=
   | c :: rest =>
     match T.pc with
     | .start =>
-      if c.locked then
-        match s.holder c.recv with
-        | none => some { s with holder := upd s.holder c.recv (some t), th := upd s.th t { T with pc := .held c.rounds } }
-        | some _ => none
-      else some { s with th := upd s.th t { T with pc := .held c.rounds } }
+      match c.snapTarget with
+      | some o =>
+        if c.opLocked then
+          match s.holder o with
+          | none => some { s with holder := upd s.holder o (some t), th := upd s.th t { T with pc := .snapHeld, opLoc := s.data o } }
+          | some _ => none
+        else some { s with th := upd s.th t { T with pc := .snapHeld, opLoc := s.data o } }
+      | none => acquireRecv s t T c
+    | .snapHeld =>
+      match c.snapTarget with
+      | some o =>
+        some { s with holder := if c.opLocked then upd s.holder o none else s.holder,
+                      th := upd s.th t { T with pc := .snapped } }
+      | none => some { s with th := upd s.th t { T with pc := .snapped } }
+    | .snapped => acquireRecv s t T c
     | .held (k+1) =>
       match c.operand with
       | none => some { s with th := upd s.th t { T with pc := .held 0 } }
@@ -132,14 +172,14 @@ def deadlocked (n : Nat) (s : State D R) : Bool :=
   (List.range n).any (unfinished s) && (List.range n).all (blocked s)
 
 /-- witness programs (data is irrelevant for lock behaviour: `Unit`). `x.Op(x)` on one wrapper: -/
-def selfProgs : Nat → List (Call Unit Unit)
-  | 0 => [{ recv := 0, operand := some 0, cbs := 1, locked := true, opLocked := true, f := fun _ _ => ((), ()) }]
+def selfProgs (snapshot : Bool) : Nat → List (Call Unit Unit)
+  | 0 => [{ recv := 0, operand := some 0, cbs := 1, locked := true, opLocked := true, snapshot := snapshot, f := fun _ _ => ((), ()) }]
   | _ => []
 
-/-- `a.Op(b) ∥ b.Op(a)` on two wrappers; `ra`, `rb` = callback rounds into the operand -/
-def abbaProgs (ra rb : Nat) : Nat → List (Call Unit Unit)
-  | 0 => [{ recv := 0, operand := some 1, cbs := ra, locked := true, opLocked := true, f := fun _ _ => ((), ()) }]
-  | 1 => [{ recv := 1, operand := some 0, cbs := rb, locked := true, opLocked := true, f := fun _ _ => ((), ()) }]
+/-- `a.Op(b) ∥ b.Op(a)` on two wrappers; `ra`, `rb` = callback rounds into the operand (old protocol) -/
+def abbaProgs (snapshot : Bool) (ra rb : Nat) : Nat → List (Call Unit Unit)
+  | 0 => [{ recv := 0, operand := some 1, cbs := ra, locked := true, opLocked := true, snapshot := snapshot, f := fun _ _ => ((), ()) }]
+  | 1 => [{ recv := 1, operand := some 0, cbs := rb, locked := true, opLocked := true, snapshot := snapshot, f := fun _ _ => ((), ()) }]
   | _ => []
 
 def unitInit (progs : Nat → List (Call Unit Unit)) : State Unit Unit := init (fun _ => ()) () progs
